@@ -129,14 +129,6 @@ func isAddOne(v ssa.Value, base ssa.Value) bool {
 	return false
 }
 
-func mulOf(v ssa.Value, a func(ssa.Value) bool, b ssa.Value) bool {
-	m, ok := binop(v, token.MUL)
-	if !ok {
-		return false
-	}
-	return (a(m.X) && m.Y == b) || (a(m.Y) && m.X == b)
-}
-
 // extractGenericSplit matches splitWithUDHI against the affine tiling template.
 func extractGenericSplit(c *core.Ctx) *genericSplit {
 	g := &genericSplit{}
@@ -218,41 +210,64 @@ func extractGenericSplit(c *core.Ctx) *genericSplit {
 	if g.ceilCall == nil {
 		g.problems = append(g.problems, "the part count is not ceil(len(data), perMsgLength)")
 	}
-	// begin = idx*k
-	isIdx := func(v ssa.Value) bool { return v == ssa.Value(g.idx) }
-	isIdx1 := func(v ssa.Value) bool { return isAddOne(v, g.idx) }
-	if !mulOf(g.slice.Low, isIdx, k) {
+	// begin = idx*k, end = min(idx*k + k, total): compared as linear forms over the monomial idx*k
+	idxK := p.LinOf(g.idx)
+	var mono prover.Lin
+	{
+		// build the monomial through the prover itself: find any value in the function equal to idx*k
+		found := false
+		for _, b := range fn.Blocks {
+			for _, ins := range b.Instrs {
+				if m, ok := ins.(*ssa.BinOp); ok && m.Op == token.MUL && ((m.X == ssa.Value(g.idx) && m.Y == k) || (m.Y == ssa.Value(g.idx) && m.X == k)) {
+					mono, found = p.LinOf(m), true
+				}
+			}
+		}
+		if !found {
+			// (idx+1)*k - k
+			for _, b := range fn.Blocks {
+				for _, ins := range b.Instrs {
+					if m, ok := ins.(*ssa.BinOp); ok && m.Op == token.MUL && (m.X == k || m.Y == k) {
+						cand := p.LinOf(m).Add(p.LinOf(k), -1)
+						if len(cand.T) == 1 && cand.C == 0 {
+							mono, found = cand, true
+						}
+					}
+				}
+			}
+		}
+		if !found {
+			g.problems = append(g.problems, "no product idx*perMsgLength found")
+		}
+	}
+	_ = idxK
+	eqLin := func(a, b prover.Lin) bool { d := a.Add(b, -1); return d.IsConst() && d.C == 0 }
+	if mono.T != nil && !eqLin(p.LinOf(g.slice.Low), mono) {
 		g.problems = append(g.problems, "the part does not begin at idx*perMsgLength")
 	}
-	// end = min((idx+1)*k, total)
 	endOK := false
-	if ph, ok := g.slice.High.(*ssa.Phi); ok && len(ph.Edges) == 2 {
+	if ph, ok := g.slice.High.(*ssa.Phi); ok && len(ph.Edges) == 2 && mono.T != nil {
+		fullLin := mono.Add(p.LinOf(k), 1)
 		var full, clamp ssa.Value
 		for _, e := range ph.Edges {
-			if mulOf(e, isIdx1, k) {
+			if eqLin(p.LinOf(e), fullLin) {
 				full = e
-			} else {
+			} else if eqLin(p.LinOf(e), p.LenOf(data)) {
 				clamp = e
 			}
 		}
 		if full != nil && clamp != nil {
-			d := p.LinOf(clamp).Add(p.LenOf(data), -1)
-			if d.IsConst() && d.C == 0 {
-				// the clamp edge must be taken exactly when full > total
-				for i, pred := range ph.Block().Preds {
-					if ph.Edges[i] != clamp {
-						continue
+			// the clamp edge must be taken exactly when full > total
+			for i, pred := range ph.Block().Preds {
+				if ph.Edges[i] != clamp || len(pred.Preds) != 1 {
+					continue
+				}
+				if ifi, ok := pred.Preds[0].Instrs[len(pred.Preds[0].Instrs)-1].(*ssa.If); ok && pred.Preds[0].Succs[0] == pred {
+					if bo, ok := binop(ifi.Cond, token.GTR); ok && eqLin(p.LinOf(bo.X), fullLin) && eqLin(p.LinOf(bo.Y), p.LenOf(data)) {
+						endOK = true
 					}
-					// pred is the then-block of `if full > total`
-					if len(pred.Preds) == 1 {
-						if ifi, ok := pred.Preds[0].Instrs[len(pred.Preds[0].Instrs)-1].(*ssa.If); ok && pred.Preds[0].Succs[0] == pred {
-							if bo, ok := binop(ifi.Cond, token.GTR); ok && bo.X == full {
-								dd := p.LinOf(bo.Y).Add(p.LenOf(data), -1)
-								if dd.IsConst() && dd.C == 0 {
-									endOK = true
-								}
-							}
-						}
+					if bo, ok := binop(ifi.Cond, token.LSS); ok && eqLin(p.LinOf(bo.Y), fullLin) && eqLin(p.LinOf(bo.X), p.LenOf(data)) {
+						endOK = true
 					}
 				}
 			}
